@@ -75,6 +75,7 @@ PLANS = {"C09": C09Plan()}
 class C10Plan(Plan):
     prop = "C10"
     oracles = ("snapshot",)
+    unreached_by_design = ("fault:GIVEUP",)      # the large give-up inputs are part of the C09 / C06 plans
     runs = {"quick": 30_000, "thorough": 1_500_000}
     rule = ("same simulator as C09 with a workload biased towards rewriting (simplification, as_expression on all "
             "routes, early objects, new expressions built from library-returned ones).  Every pooled object "
@@ -117,6 +118,8 @@ PLANS["C10"] = C10Plan()
 class C06Plan(Plan):
     prop = "C06"
     oracles = ()
+    # points of this workload supply every variable (as the property states) and it builds no new expressions
+    unreached_by_design = ("fault:MISS", "probe:shared-result-embedded")
     runs = {"quick": 100_000, "thorough": 5_000_000}
     rule = ("each run keeps long-lived derivative objects of every kind (Partial / Derivative / Differential early and "
             "late, components, located differentials, variable as object or name) for 1-3 target expressions that share "
